@@ -574,6 +574,50 @@ fn tc(req: &J) -> J {
     }
 }
 
+/// an entity store built from parent links (closure computed by the library), then ONE edit, through the public cedar_policy API.
+/// in: {present: [ids], keys: nk, edges: [[i, j], ..] (parents of the initial entities), edit: {op: "add"|"upsert"|"remove", id: i, parents: [j, ..]}}
+/// out: {ok, err, present: [ids], desc: {id: [bool; nk]}}
+fn tc_edit(req: &J) -> J {
+    use cedar_policy::{Entity, EntityUid};
+    use std::collections::{HashMap, HashSet};
+    let nk = req["keys"].as_u64().unwrap_or(0) as usize;
+    let uid = |i: usize| EntityUid::from_str(&format!("N::\"n{i}\"")).unwrap();
+    let mk = |i: usize, ps: Vec<usize>| Entity::new_no_attrs(uid(i), ps.into_iter().map(uid).collect::<HashSet<_>>());
+    let mut ents = vec![];
+    let present: Vec<usize> = req["present"].as_array().map(|a| a.iter().filter_map(|x| x.as_u64()).map(|x| x as usize).collect()).unwrap_or_default();
+    for &i in &present {
+        let ps: Vec<usize> = req["edges"].as_array().cloned().unwrap_or_default().iter().filter(|e| e[0].as_u64() == Some(i as u64)).filter_map(|e| e[1].as_u64()).map(|x| x as usize).collect();
+        ents.push(mk(i, ps));
+    }
+    let store = match Entities::from_entities(ents, None) {
+        Ok(s) => s,
+        Err(e) => return json!({"initial_error": e.to_string()}),
+    };
+    let ed = &req["edit"];
+    let id = ed["id"].as_u64().unwrap_or(0) as usize;
+    let ps: Vec<usize> = ed["parents"].as_array().map(|a| a.iter().filter_map(|x| x.as_u64()).map(|x| x as usize).collect()).unwrap_or_default();
+    let r = match ed["op"].as_str().unwrap_or("") {
+        "add" => store.add_entities([mk(id, ps)], None),
+        "upsert" => store.upsert_entities([mk(id, ps)], None),
+        "remove" => store.remove_entities([uid(id)]),
+        other => return json!({"unknown_edit": other}),
+    };
+    match r {
+        Ok(es) => {
+            let mut desc: HashMap<String, Vec<bool>> = HashMap::new();
+            let mut pres = vec![];
+            for i in 0..nk {
+                if let Some(e) = es.get(&uid(i)) {
+                    pres.push(i);
+                    desc.insert(i.to_string(), (0..nk).map(|j| es.is_ancestor_of(&uid(j), &e.uid())).collect());
+                }
+            }
+            json!({"ok": true, "present": pres, "desc": desc})
+        }
+        Err(e) => json!({"ok": false, "err": e.to_string()}),
+    }
+}
+
 fn handle(req: &J) -> J {
     match req["op"].as_str().unwrap_or("") {
         "eval" => eval(req),
@@ -586,6 +630,7 @@ fn handle(req: &J) -> J {
         "conformance" => conformance(req),
         "policy_eq" => policy_eq(req),
         "tc" => tc(req),
+        "tc_edit" => tc_edit(req),
         other => json!({"unknown_op": other}),
     }
 }
